@@ -30,6 +30,9 @@ structure Arith (α : Type) where
   beq : α → α → Bool      -- Go `==`
   equal : α → α → Bool    -- util.go Equal (within Epsilon)
   trunc : α → α           -- float64(int(x))
+  sqrt2 : α               -- math.Sqrt2
+  c1001 : α               -- the literal 1.001
+  fmax : α → α → α        -- math.Max
 
 /-- scalar + matrix/rectangle operations (util.go) + `Path.checkDash` (path.go, owned by C05) -/
 structure Ops (α : Type) extends Arith α where
@@ -47,6 +50,10 @@ structure Ops (α : Type) extends Arith α where
   shearAbout : Mat α → α → α → α → α → Mat α
   rectTransform : Rct α → Mat α → Rct α
   rectAdd : Rct α → Rct α → Rct α
+  /-- which capper identities are a `SquareCapper` -/
+  isSquareCap : Nat → Bool
+  /-- `Limit` of the joiner identities that are a `MiterJoiner` or `ArcsJoiner` with a finite limit -/
+  joinLimit : Nat → Option α
   /-- `p.checkDash(offset, dashes)` as a function of the path's length -/
   checkDash : α → List α → α → List α × Bool
 
@@ -259,10 +266,19 @@ def Canvas.clip (o : Ops α) (r : Rct α) (cv : Canvas α) : Canvas α :=
 def rectEmpty (o : Ops α) (r : Rct α) : Bool :=
   o.equal (o.sub r.x1 r.x0) o.zero || o.equal (o.sub r.y1 r.y0) o.zero
 
+/-- how far `Fit` assumes the stroke to reach from the path: half the width, times √2 for square
+caps (their corners), and at least `max(Limit, 1.001)` half-widths for miter/arcs joins (their tips) -/
+def strokeExtent (o : Ops α) (s : Style α) : α :=
+  let hw := o.div s.width o.two
+  let hw := if o.isSquareCap s.cap then o.mul hw o.sqrt2 else hw
+  match o.joinLimit s.join with
+  | some lim => o.fmax hw (o.div (o.mul (o.fmax lim o.c1001) s.width) o.two)
+  | none => hw
+
 def itemBounds (o : Ops α) : Item α → Rct α
   | .path p s =>
     if s.hasStroke o then
-      let hw := o.div s.width o.two
+      let hw := strokeExtent o s
       ⟨o.sub p.bounds.x0 hw, o.sub p.bounds.y0 hw, o.add p.bounds.x1 hw, o.add p.bounds.y1 hw⟩
     else p.bounds
   | .text t => t.bounds
